@@ -338,3 +338,29 @@ def run(rep: Report, prog: Program, tier: str) -> None:
     rep.rule("C19-CHANNELS", "every data channel is closed when the association is closed", min_instances=2)
     from .common import close_all_channels_rule
     close_all_channels_rule(rep, prog, PROP, "C19-CHANNELS")
+
+    # ---------------- C19-TRACK: stopping a receiver always tells its remote track that it has ended
+    rep.rule("C19-TRACK", "RTCRtpReceiver.stop() signals end-of-track on every path on which a remote track exists", min_instances=1)
+    rstop = prog.func("rtcrtpreceiver.RTCRtpReceiver.stop")
+
+    def ev_track(node, f):
+        if isinstance(node, ast.Call):
+            nm = unparse(node.func)
+            if nm == "self.__stop_decoder":
+                return ["end-signal"]
+            if nm in ("self._track._queue.put_nowait", "self._track._queue.put") and node.args and isinstance(node.args[0], ast.Constant) and node.args[0].value is None:
+                return ["end-signal"]
+            if nm == "self._track.stop":
+                return ["end-signal"]
+        return []
+    act = EventsDomain(prog, ev_track).run(rstop)
+    bad = [st for st, _n in act.returns if "end-signal" not in st.events and not st.has_guard("self._track is not None", False) and not st.has_guard("self._track is None", True)
+           and not st.has_guard("self._track", False)]
+    sd = prog.func("rtcrtpreceiver.RTCRtpReceiver.__stop_decoder")
+    feeds = any(isinstance(n, ast.Call) and unparse(n.func).endswith("__decoder_queue.put") and n.args and isinstance(n.args[0], ast.Constant) and n.args[0].value is None
+                for n in walk_no_nested(sd.node))
+    if bad or not act.returns or not feeds:
+        rep.fail(mk_finding(prog, PROP, "C19-TRACK", rstop, rstop.node, "stop() can return without anything telling the remote track that it has ended (a receiver that was never started "
+                            "has no decoder thread to do it): after close() the received track stays live and recv() blocks for ever", construct="end-of-track on every path"))
+    else:
+        rep.ok("C19-TRACK", "RTCRtpReceiver.stop: end-of-track signalled whether or not the receiver had been started", sample=f"{len(act.returns)} exit(s)")
